@@ -227,17 +227,17 @@ func loadFindings() []finding {
 type chunk struct{ from, to int }
 
 type runner struct {
-	prop    string
-	cfg     propCfg
-	tier    string
-	seed    uint64
-	bin     string
-	tmp     string
-	mu      sync.Mutex
-	results []*sim.WorkerResult
-	crashes []sim.Violation
-	trouble []string
-	nproc   int
+	prop     string
+	cfg      propCfg
+	tier     string
+	seed     uint64
+	bin      string
+	tmp      string
+	mu       sync.Mutex
+	results  []*sim.WorkerResult
+	crashes  []sim.Violation
+	trouble  []string
+	nproc    int
 	excluded int
 	deaths   int  // workers that died or stalled and were confirmed as violations
 	aborted  bool // enough process-killing violations: stop dispatching (the verdict is settled)
@@ -485,7 +485,9 @@ func (r *runner) processChunk(c chunk, id int, gmp int, deadline time.Time) {
 			r.handleDeath(last, stalled, string(seb), gmp)
 		}
 		r.mu.Lock()
-		if r.deaths >= maxDeaths && len(r.crashes) > 0 {
+		if r.deaths >= maxDeaths {
+			// with or without a confirmed crash: the violations the dead workers recorded before
+			// dying are kept, and deaths nobody can explain are reported as trouble (exit 2)
 			r.aborted = true
 		}
 		r.mu.Unlock()
@@ -549,6 +551,7 @@ func (r *runner) handleDeath(idx int, stalled bool, stderr string, gmp int) {
 	if oomExcluded(sig, stderr, sc) {
 		r.mu.Lock()
 		r.excluded++
+		r.deaths-- // an excluded input, not a death that says anything about the tree
 		r.mu.Unlock()
 		return
 	}
@@ -1106,7 +1109,7 @@ func (r *runner) finish(start time.Time) int {
 		cov["harness_trouble"] = r.trouble
 	}
 	if r.aborted {
-		cov["stopped_early"] = fmt.Sprintf("after %d worker deaths or stalls (each confirmed as a violation): the verdict is settled, the remaining run indices were not executed", r.deaths)
+		cov["stopped_early"] = fmt.Sprintf("after %d worker deaths or stalls: the remaining run indices were not executed (violations recorded before or by the deaths are reported; unexplained deaths are harness trouble, exit 2)", r.deaths)
 	}
 	unreached := []string{}
 	for k, v := range a.probes {
@@ -1136,7 +1139,8 @@ func (r *runner) finish(start time.Time) int {
 	}
 	fmt.Printf("%s %s: %d runs (%d evaluations, %d distinct non-trivial) in %.1fs, %d scheduler steps; faults fired: %v; violations: %d new, %d known\n",
 		r.prop, r.tier, a.runs, a.evals, len(hashes), wall, a.steps, a.faults, len(newViols), len(known))
-	if exit == 0 && len(r.trouble) > 0 && a.runs == 0 {
+	if exit == 0 && len(r.trouble) > 0 && (a.runs == 0 || r.aborted) {
+		// stopped after repeated worker deaths none of which could be shown to be bcl's doing
 		return 2
 	}
 	return exit
